@@ -14,7 +14,7 @@ open Neumann Neumann.Proto Neumann.FramedLog Neumann.TxWal
 
 structure DState where
   dict : List (List Nat × Entry) := []
-  coord : Coord := { cfg := ⟨5000, 100⟩ }
+  coord : Coord := { cfg := { prepareTimeoutMs := 5000, maxConcurrent := 100 } }
 
 def phaseNum : Phase → Nat
   | .preparing => 0 | .prepared => 1 | .committing => 2 | .committed => 3 | .aborting => 4 | .aborted => 5
@@ -112,14 +112,44 @@ def showRes : Res → String
   | .timedOut ids => "timed_out:" ++ showNats (sortBy (fun a b => decide (a < b)) ids)
   | .recovered a b c d => s!"recovered:{a}:{b}:{c}:{d}"
   | .flushed n => s!"flushed:{n}"
+  | .walErr => "wal_err"
+  | .recStats a b c d e => s!"recstats:{a}:{b}:{c}:{d}:{e}"
+  | .decisions ds =>
+      let ds := sortBy (fun a b => a.1 < b.1) ds
+      "decisions:" ++ (if ds.isEmpty then "-" else ",".intercalate (ds.map fun p => s!"{p.1}.{phaseNum p.2}"))
+  | .cannotCommit => "cannot_commit"
 
 def deOf (d : List (List Nat × Entry)) (p : List Nat) : Option Entry :=
   (d.find? (fun q => q.1 == p)).map (·.2)
 
-/-- answer of a coordinator call: result | records appended by the call | memory afterwards -/
+/-- size of the record of `e` in the file: the payload the harness announced for it (an entry
+    never announced has no known size; `needs` makes the harness announce it first) -/
+def szOf (d : List (List Nat × Entry)) (e : Entry) : Nat :=
+  match d.find? (fun q => q.2 == e) with
+  | some q => 8 + q.1.length
+  | none => 8
+
+/-- answer of a coordinator call: result | records appended by the call | memory afterwards.
+    When the size limit rotated the file the second field is `~` followed by the whole new log. -/
 def coordAns (s : DState) (r : Coord × Res) : DState × String :=
-  let added := r.1.log.drop s.coord.log.length
-  ({ s with coord := r.1 }, s!"{showRes r.2} | {showEntries added} | {showCoord r.1}")
+  let old := s.coord.log
+  let added :=
+    if r.1.log.take old.length == old then showEntries (r.1.log.drop old.length)
+    else "~ " ++ showEntries r.1.log
+  ({ s with coord := r.1 }, s!"{showRes r.2} | {added} | {showCoord r.1}")
+
+/-- a call that may write to a size-limited WAL: every record it could write must have a known
+    size.  The records are the ones the same call writes on an unlimited WAL. -/
+def sized (s : DState) (f : (Entry → Nat) → Coord → Coord × Res) : DState × String :=
+  let sz := szOf s.dict
+  match s.coord.cfg.walCap with
+  | none => coordAns s (f sz s.coord)
+  | some _ =>
+    let c0 := { s.coord with cfg := { s.coord.cfg with walCap := none } }
+    let att := (f sz c0).1.log.drop c0.log.length
+    let missing := att.filter (fun e => !(s.dict.any (fun q => q.2 == e)))
+    if missing.isEmpty then coordAns s (f sz s.coord)
+    else (s, "need " ++ " ".intercalate (missing.map showEntry))
 
 def txStep (s : DState) (line : String) : DState × String :=
   let bad := (s, "bad-op")
@@ -132,6 +162,8 @@ def txStep (s : DState) (line : String) : DState × String :=
       | some b => (s, toString (crc b)) | none => bad
   | ["frame", h] => match unhex h with
       | some b => (s, hex (encodeRec crc b)) | none => bad
+  | ["frame0", h] => match unhex h with       -- `enable_checksums = false`
+      | some b => (s, hex (encodeRec (fun _ => 0) b)) | none => bad
   | ["valid_len", h] => match unhex h with
       | some b => (s, toString (validPrefixLen b)) | none => bad
   | ["replay", h] => match unhex h with
@@ -142,8 +174,15 @@ def txStep (s : DState) (line : String) : DState × String :=
       | some b => (match replay crc (deOf s.dict) b with
           | some es => (s, showRecovery (fromEntries es)) | none => (s, "err checksum"))
       | none => bad
+  | ["log"] => (s, showEntries s.coord.log)
+  | ["new", t, mx, cap, rot] => match t.toNat?, mx.toNat?, cap.toNat?, rot.toNat? with
+      | some t, some mx, some cap, some rot =>
+          ({ s with coord := { cfg := { prepareTimeoutMs := t, maxConcurrent := mx, walCap := some cap,
+                                        autoRotate := rot != 0 } } }, "ok")
+      | _, _, _, _ => bad
   | ["new", t, mx] => match t.toNat?, mx.toNat? with
-      | some t, some mx => ({ s with coord := { cfg := ⟨t, mx⟩ } }, "ok") | _, _ => bad
+      | some t, some mx => ({ s with coord := { cfg := { prepareTimeoutMs := t, maxConcurrent := mx } } }, "ok")
+      | _, _ => bad
   | ["restart", h, now] => match unhex h, now.toNat? with
       | some b, some now => (match restartBytes crc (deOf s.dict) s.coord.cfg b now with
           | some c => ({ s with coord := c }, s!"ok | {showEntries c.log} | {showCoord c}")
@@ -152,20 +191,26 @@ def txStep (s : DState) (line : String) : DState × String :=
   | ["lock", tx, h] => match tx.toNat?, h.toNat? with
       | some tx, some h => coordAns s (lockAcquire s.coord tx h) | _, _ => bad
   | ["begin", id, ps, now] => match id.toNat?, parseNats ps, now.toNat? with
-      | some id, some ps, some now => coordAns s (begin s.coord id ps now) | _, _, _ => bad
+      | some id, some ps, some now => sized s (fun sz c => begin sz c id ps now) | _, _, _ => bad
   | ["vote", id, sh, v, x] => match id.toNat?, sh.toNat?, parseVote v, x.toNat? with
-      | some id, some sh, some v, some x => coordAns s (recordVote s.coord id sh v (x != 0)) | _, _, _, _ => bad
+      | some id, some sh, some v, some x => sized s (fun sz c => recordVote sz c id sh v (x != 0))
+      | _, _, _, _ => bad
   | ["commit", id] => match id.toNat? with
-      | some id => coordAns s (commit s.coord id) | none => bad
+      | some id => sized s (fun sz c => commit sz c id) | none => bad
   | ["abort", id] => match id.toNat? with
-      | some id => coordAns s (abort s.coord id) | none => bad
+      | some id => sized s (fun sz c => abort sz c id) | none => bad
   | ["ccommit", id] => match id.toNat? with
       | some id => coordAns s (completeCommit s.coord id) | none => bad
   | ["cabort", id] => match id.toNat? with
       | some id => coordAns s (completeAbort s.coord id) | none => bad
   | ["cleanup", now] => match now.toNat? with
       | some now => coordAns s (cleanupTimeouts s.coord now) | none => bad
-  | ["flush"] => coordAns s (flushAborts s.coord)
+  | ["flush"] => sized s (fun sz c => flushAborts sz c)
+  | ["recover_mem", now] => match now.toNat? with
+      | some now => coordAns s (recoverMem s.coord now) | none => bad
+  | ["decisions"] => coordAns s (s.coord, .decisions (pendingDecisions s.coord))
+  | ["force", id, b] => match id.toNat?, b.toNat? with
+      | some id, some b => coordAns s (forceResolve s.coord id (b != 0)) | _, _ => bad
   | ["recover_live", now] => match now.toNat? with
       | some now => coordAns s (recoverFromWal s.coord now) | none => bad
   | _ => bad
